@@ -172,45 +172,48 @@ def namedChildIndex (t : Tree) (args : List Val) : Except EK Val := do
       | some i => pure (.int i)
       | none => throw .functionFailed
 
-def liftE (g : CGraph) : Except EK Val → FnRes
-  | .ok v => .ok v g
-  | .error e => .err e
-
 /-- names registered by `Functions::stdlib()` (functions.rs:100-140) -/
 def names : List String :=
   ["eq", "is-null", "named-child-index", "source-text", "start-row", "start-column", "end-row",
    "end-column", "node-type", "named-child-count", "node", "not", "and", "or", "plus", "format",
    "replace", "concat", "is-empty", "join", "length"]
 
-/-- `Functions::call` on the standard library -/
-def call (o : Oracle) (t : Tree) (name : String) (args : List Val) (g : CGraph) : FnRes :=
+/-- outcome of a function that does not touch the graph -/
+inductive PureRes where
+  | ok (v : Val)
+  | err (k : EK)
+  | panic (site : String)
+  | need (q : Need)
+
+def liftP : Except EK Val → PureRes
+  | .ok v => .ok v
+  | .error e => .err e
+
+/-- every standard function except `node` (which adds a graph node) -/
+def callPure (o : Oracle) (t : Tree) (name : String) (args : List Val) : PureRes :=
   let disp := Val.display t.synShow
   match name with
-  | "eq" => liftE g (eq args)
-  | "is-null" => liftE g (isNull args)
-  | "named-child-index" => liftE g (namedChildIndex t args)
+  | "eq" => liftP (eq args)
+  | "is-null" => liftP (isNull args)
+  | "named-child-index" => liftP (namedChildIndex t args)
   | "source-text" =>
     match synArg t args with
     | .error e => .err e
     | .ok n =>
       match Tree.sliceBytes t.source n.startByte n.endByte with
-      | some s => .ok (.str s) g
+      | some s => .ok (.str s)
       | none => .panic "source-text:slice"
-  | "start-row" => liftE g ((synArg t args).map fun n => .int n.startRow)
-  | "start-column" => liftE g ((synArg t args).map fun n => .int n.startCol)
-  | "end-row" => liftE g ((synArg t args).map fun n => .int n.endRow)
-  | "end-column" => liftE g ((synArg t args).map fun n => .int n.endCol)
-  | "node-type" => liftE g ((synArg t args).map fun n => .str n.kind)
-  | "named-child-count" => liftE g ((synArg t args).map fun n => .int (t.namedChildren n).length)
-  | "node" =>
-    match finish args with
-    | .error e => .err e
-    | .ok () => let (g', i) := g.addGraphNode; .ok (.gnode i) g'
-  | "not" => liftE g (not args)
-  | "and" => liftE g (andLoop true args)
-  | "or" => liftE g (orLoop false args)
-  | "plus" => liftE g (plusLoop 0 args)
-  | "format" => liftE g (format disp args)
+  | "start-row" => liftP ((synArg t args).map fun n => .int n.startRow)
+  | "start-column" => liftP ((synArg t args).map fun n => .int n.startCol)
+  | "end-row" => liftP ((synArg t args).map fun n => .int n.endRow)
+  | "end-column" => liftP ((synArg t args).map fun n => .int n.endCol)
+  | "node-type" => liftP ((synArg t args).map fun n => .str n.kind)
+  | "named-child-count" => liftP ((synArg t args).map fun n => .int (t.namedChildren n).length)
+  | "not" => liftP (not args)
+  | "and" => liftP (andLoop true args)
+  | "or" => liftP (orLoop false args)
+  | "plus" => liftP (plusLoop 0 args)
+  | "format" => liftP (format disp args)
   | "replace" =>
     match param args with
     | .error e => .err e
@@ -224,8 +227,7 @@ def call (o : Oracle) (t : Tree) (name : String) (args : List Val) (g : CGraph) 
           match asStr pv with
           | .error e => .err e
           | .ok pat =>
-            -- the pattern is compiled before the replacement is fetched; any replacement works
-            -- for asking whether it compiles, so the question is asked with the real one if present
+            -- the pattern is compiled before the replacement is fetched
             match r2 with
             | [] =>
               match o.replaceAll pat text "" with
@@ -246,11 +248,24 @@ def call (o : Oracle) (t : Tree) (name : String) (args : List Val) (g : CGraph) 
                 | some (some out) =>
                   match finish r3 with
                   | .error e => .err e
-                  | .ok () => .ok (.str out) g
-  | "concat" => liftE g (concatLoop [] args)
-  | "is-empty" => liftE g (isEmpty args)
-  | "join" => liftE g (join disp args)
-  | "length" => liftE g (length args)
+                  | .ok () => .ok (.str out)
+  | "concat" => liftP (concatLoop [] args)
+  | "is-empty" => liftP (isEmpty args)
+  | "join" => liftP (join disp args)
+  | "length" => liftP (length args)
   | _ => .err .undefinedFunction
+
+/-- `Functions::call` on the standard library -/
+def call (o : Oracle) (t : Tree) (name : String) (args : List Val) (g : CGraph) : FnRes :=
+  if name = "node" then
+    match finish args with
+    | .error e => .err e
+    | .ok () => let (g', i) := g.addGraphNode; .ok (.gnode i) g'
+  else
+    match callPure o t name args with
+    | .ok v => .ok v g
+    | .err k => .err k
+    | .panic site => .panic site
+    | .need q => .need q
 
 end Stdlib
